@@ -36,6 +36,12 @@ structure DState where
   fq : List Nat := []
   bq : List Nat := []
   bfin : Bool := false
+  /-- handler mode: the backend socket's send buffer is full / its peer is gone -/
+  bblocked : Bool := false
+  bclosed : Bool := false
+  /-- session mode (`snew`): the pipe together with the kernel model -/
+  sess : Sess := { p := Pipe.new 0 }
+  smode : Bool := false
 
 def dump (p : Pipe) : String :=
   s!"fr={rdStr p.fr} br={rdStr p.br} chk={boolStr p.check}"
@@ -48,7 +54,36 @@ def stepLine (st : DState) (line : String) : DState × List String :=
       let p := Pipe.new cap (hb = "1")
       ({ p := p, dead := false }, ["new " ++ dump p])
     | none => (st, ["bad-op"])
-  | ["end"] => (st, [s!"backgot={bytesToHex st.p.wroteB} frontgot={bytesToHex st.p.wroteF}"])
+  | ["end"] =>
+    let p := if st.smode then st.sess.p else st.p
+    (st, [s!"backgot={bytesToHex p.wroteB} frontgot={bytesToHex p.wroteF}"])
+  | ["snew", cap] =>
+    match cap.toNat? with
+    | some cap =>
+      let s : Sess := { p := Pipe.new cap, k := { bRoom := 1000000000 } }
+      ({ sess := s, smode := true, dead := false }, ["new " ++ dump s.p])
+    | none => (st, ["bad-op"])
+  | "sev" :: evs =>
+    if st.dead then (st, ["dead"]) else
+    let parseEv (w : String) : Option Ev :=
+      match w.splitOn ":" with
+      | ["cs", hx] => (hexToBytes hx).map Ev.clientSend
+      | ["bs", hx] => (hexToBytes hx).map Ev.backendSend
+      | ["cf"] => some .clientFin
+      | ["bf"] => some .backendFin
+      | ["cr", n] => n.toNat?.map Ev.clientRoom
+      | ["bo"] => some (.backendRoom 1000000000)
+      | ["bb"] => some .backendBlock
+      | ["fe"] => some .frontErr
+      | ["be"] => some .backErr
+      | _ => none
+    match evs.mapM parseEv with
+    | some evs =>
+      let s1 := evs.foldl Sess.apply st.sess
+      let (s2, r) := s1.readyWs
+      ({ st with sess := s2, dead := r != .cont },
+        [s!"{if r == Res.loopCap then "close" else resStr r} {dump s2.p} +{bytesToHex (s2.p.wroteF.drop st.sess.p.wroteF.length)}"])
+    | none => (st, ["bad-op"])
   | ws =>
     if st.dead then (st, ["dead"]) else
     let fin (r : Pipe × Res) (extra : String) (st' : DState) : DState × List String :=
@@ -73,7 +108,8 @@ def stepLine (st : DState) (line : String) : DState × List String :=
     | ["brd", hx, f] =>
       match hexToBytes hx with
       | some bs =>
-        let q := st.bq ++ bs
+        -- a peer that is gone (`bclose`) delivers nothing more
+        let q := if st.bclosed then st.bq else st.bq ++ bs
         let bfin := st.bfin || f = "1"
         let win := st.p.bbuf.space
         let (got, res) := kernelRead q bfin win
@@ -81,8 +117,15 @@ def stepLine (st : DState) (line : String) : DState × List String :=
         fin (st.p.backendReadable got res) "" { st with bq := q.drop taken, bfin := bfin }
       | none => (st, ["bad-op"])
     | ["bwr"] =>
-      -- the backend peer reads everything: every write succeeds in full
-      fin (st.p.backendWritable [(st.p.fbuf.data.length, .cont)]) "" st
+      -- the backend peer reads everything: every write succeeds in full — unless its send
+      -- buffer was filled (`bfill`: EAGAIN on the first byte) or its peer closed (`bclose`: EPIPE)
+      let sc : List (Nat × SR) :=
+        if st.bclosed then [(0, .closed)] else if st.bblocked then [(0, .wouldBlock)]
+        else [(st.p.fbuf.data.length, .cont)]
+      fin (st.p.backendWritable sc) "" st
+    | ["bfill"] => ({ st with bblocked := true }, ["ok"])
+    | ["bdrain"] => ({ st with bblocked := false }, ["ok"])
+    | ["bclose"] => ({ st with bclosed := true, bfin := true }, ["ok"])
     | ["bhup"] => fin st.p.backendHup "" st
     | ["fhup"] => fin st.p.frontendHup "" st
     | _ => (st, ["bad-op"])
